@@ -315,8 +315,23 @@ class PageBreakCalculator(BaseModel):
                 actual_font_size = font_size
                 actual_font = 1
 
-                if table_attrs:
-                    pass
+                if table_attrs is not None:
+                    # Measure each cell at its own font and size. The attribute
+                    # matrices follow the displayed (processed) columns, so they
+                    # are indexed by width_idx, not by the original column index.
+                    from ..attributes import BroadcastValue
+
+                    attr_dim = (df.height, len(col_widths))
+                    size_value = BroadcastValue(
+                        value=table_attrs.text_font_size, dimension=attr_dim
+                    ).iloc(row_idx, width_idx)
+                    if size_value is not None:
+                        actual_font_size = size_value
+                    font_value = BroadcastValue(
+                        value=table_attrs.text_font, dimension=attr_dim
+                    ).iloc(row_idx, width_idx)
+                    if font_value is not None:
+                        actual_font = font_value
 
                 text_width = get_string_width(
                     cell_value,
